@@ -20,13 +20,125 @@ META = {
 }
 
 
+SHAPES = [(), (1,), (1, 1), (2,), (2, 1), (3,)]
+
+
+def _scratch(tag: str) -> str:
+    import os, tempfile
+    fd, fn = tempfile.mkstemp(suffix=".json", prefix=f"c14_{tag}_", dir=os.environ.get("TMPDIR", "/tmp"))
+    os.close(fd)
+    return fn
+
+
+def _vec_lattice(r: dict):
+    import torch
+    import cheetah
+    F64 = torch.float32   # the loader's default dtype (what a float64 lattice loads as is C12's subject)
+
+    def t(key):
+        return torch.tensor(r[key], dtype=F64)
+    return cheetah.Segment([
+        cheetah.Drift(length=t("d"), name="d0", dtype=F64),
+        cheetah.Quadrupole(length=t("ql"), k1=t("k1"), name="q0", dtype=F64),
+        cheetah.Segment([cheetah.HorizontalCorrector(length=torch.tensor(0.1, dtype=F64), angle=t("angle"), name="h0", dtype=F64)],
+                        name="sub"),
+    ], name="root")
+
+
+def shape_case(rep, r: dict) -> None:
+    """parameter values include their vector shape: a (1,)- or (1,1)-shaped parameter is not a scalar"""
+    import os
+    import torch
+    import cheetah
+    fn = _scratch("shape")
+    try:
+        seg = _vec_lattice(r)
+        seg.to_lattice_json(fn)
+        seg2 = cheetah.Segment.from_lattice_json(fn)
+        pairs = [("d0.length", seg.d0.length, seg2.d0.length), ("q0.length", seg.q0.length, seg2.q0.length),
+                 ("q0.k1", seg.q0.k1, seg2.q0.k1), ("h0.angle", seg.sub.h0.angle, seg2.sub.h0.angle)]
+        for nm, a, b in pairs:
+            if tuple(a.shape) != tuple(b.shape):
+                rep.fail("falsifier", f"C14|vector-shape|{len(a.shape)}-d with {a.numel()} entr{'y' if a.numel() == 1 else 'ies'}|shape",
+                         f"{nm} of shape {tuple(a.shape)} comes back from LatticeJSON with shape {tuple(b.shape)}", r)
+                return
+            if not torch.equal(a, b.to(a.dtype)):
+                rep.fail("falsifier", f"C14|vector-shape|{len(a.shape)}-d|value", f"{nm} = {a.tolist()} comes back as {b.tolist()}", r)
+                return
+    except Exception as e:  # noqa: BLE001
+        rep.fail("falsifier", "C14|vector-shape|raises", f"round trip of a lattice with vectorised parameters: {type(e).__name__}: {e}", r)
+    finally:
+        if os.path.exists(fn):
+            os.remove(fn)
+
+
+def reuse_case(rep, r: dict) -> None:
+    """loading returns what the file says *now*, as an independent object (same path written and read several times)"""
+    import os
+    import torch
+    import cheetah
+    fn = _scratch("reuse")
+    try:
+        a, b = _vec_lattice(r["a"]), _vec_lattice(r["b"])
+        a.to_lattice_json(fn)
+        a1 = cheetah.Segment.from_lattice_json(fn)
+        a2 = cheetah.Segment.from_lattice_json(fn)
+        if a1 is a2 or a1.q0 is a2.q0 or a1.q0.k1.data_ptr() == a2.q0.k1.data_ptr():
+            rep.fail("falsifier", "C14|reload|same file twice|shared objects", "two loads of one file return objects that share state", r)
+            return
+        a1.q0.k1 = a1.q0.k1 + 1.0
+        a1.d0.length = a1.d0.length * 2
+        a3 = cheetah.Segment.from_lattice_json(fn)
+        if not torch.equal(a3.q0.k1, a.q0.k1) or not torch.equal(a3.d0.length, a.d0.length):
+            rep.fail("falsifier", "C14|reload|after modifying an earlier load|value", f"q0.k1 loads as {a3.q0.k1.tolist()}, the file says {a.q0.k1.tolist()}", r)
+            return
+        b.to_lattice_json(fn)
+        b1 = cheetah.Segment.from_lattice_json(fn)
+        for nm, x, y in [("q0.k1", b.q0.k1, b1.q0.k1), ("d0.length", b.d0.length, b1.d0.length), ("h0.angle", b.sub.h0.angle, b1.sub.h0.angle)]:
+            if tuple(x.shape) != tuple(y.shape) or not torch.equal(x, y.to(x.dtype)):
+                rep.fail("falsifier", "C14|reload|file rewritten|value", f"after the file was overwritten with another lattice, {nm} loads as "
+                         f"{y.tolist()}, the file says {x.tolist()}", r)
+                return
+    except Exception as e:  # noqa: BLE001
+        rep.fail("falsifier", "C14|reload|raises", f"{type(e).__name__}: {e}", r)
+    finally:
+        if os.path.exists(fn):
+            os.remove(fn)
+
+
+def _gen_vec(rng) -> dict:
+    import numpy as np
+
+    def val(lo, hi):
+        sh = SHAPES[int(rng.integers(len(SHAPES)))]
+        return np.round(rng.uniform(lo, hi, size=sh), 6).tolist()
+    return {"d": val(0.1, 2.0), "ql": val(0.1, 0.5), "k1": val(-3.0, 3.0), "angle": val(-1e-3, 1e-3)}
+
+
+def file_probes(ctx, n: int) -> None:
+    rep, rng = ctx.report, ctx.rng
+    for _ in range(n):
+        r = dict(_gen_vec(rng), kind="vec_shape")
+        rep.fals_cases += 1
+        rep.count("probe:vector-shape")
+        shape_case(rep, r)
+        r2 = {"kind": "reuse", "a": _gen_vec(rng), "b": _gen_vec(rng)}
+        rep.fals_cases += 1
+        rep.count("probe:reload")
+        reuse_case(rep, r2)
+
+
 def run(ctx) -> None:
-    pass
+    file_probes(ctx, ctx.n(10, 150))
     if F is not None:
         F.run(ctx)
 
 
 def corpus_case(ctx, r: dict) -> None:
+    if r.get("kind") == "vec_shape":
+        return shape_case(ctx.report, r)
+    if r.get("kind") == "reuse":
+        return reuse_case(ctx.report, r)
     if F is not None and hasattr(F, "corpus_case"):
         F.corpus_case(ctx, r)
 
